@@ -1426,6 +1426,7 @@ mod convert {
                     continue;
                 }
                 if self.from_row.end_sequence() {
+                    self.check_address_offset(self.from_row.address())?;
                     return Ok(Some(ConvertLineRow::EndSequence(self.from_row.address())));
                 }
                 if let Some(address) = self.address.take() {
@@ -1440,6 +1441,7 @@ mod convert {
         }
 
         fn convert_row(&self) -> ConvertResult<LineRow> {
+            self.check_address_offset(self.from_row.address())?;
             Ok(LineRow {
                 address_offset: self.from_row.address(),
                 op_index: self.from_row.op_index(),
@@ -1602,11 +1604,9 @@ mod convert {
                         self.set_address(address);
                     }
                     ConvertLineRow::Row(row) => {
-                        self.check_address_offset(row.address_offset)?;
                         self.generate_row(row);
                     }
                     ConvertLineRow::EndSequence(length) => {
-                        self.check_address_offset(length)?;
                         self.end_sequence(length);
                     }
                 }
